@@ -80,7 +80,12 @@ class SessionRecorder(Recorder):
         from jesse.services import selectors
         p = selectors.get_position(o.exchange, o.symbol)
         ex = selectors.get_exchange(o.exchange)
-        self.events.append(dict(ev='execute', ord=o._vf_ord, sym=o.symbol, before=before, t=self._now(), phase=self.ctx.phase,
+        try:
+            from jesse.store import store as _st
+            mts = float(_st.candles.get_current_candle(o.exchange, o.symbol, '1m')[0])
+        except Exception:  # noqa
+            mts = None
+        self.events.append(dict(ev='execute', ord=o._vf_ord, sym=o.symbol, before=before, t=self._now(), phase=self.ctx.phase, minute_ts=mts,
                                 pos_qty_before=None if p is None else float(p.qty),
                                 wallet_before=float(ex.assets[ex.settlement_currency])))
 
@@ -148,6 +153,8 @@ def install_sim_wrappers():
             return o_liq(candle, exchange, symbol)
         from jesse.services import selectors
         p = selectors.get_position(exchange, symbol)
+        if p is None:  # a symbol that is only observed through a data route has no position
+            return o_liq(candle, exchange, symbol)
         ex = selectors.get_exchange(exchange)
         before = dict(qty=float(p.qty), entry=None if p.entry_price is None else float(p.entry_price), mode=p.mode,
                       liq=None if p.is_close else float(p.liquidation_price), lev=None if p.strategy is None else p.leverage,
@@ -239,6 +246,8 @@ def read_all_candles(ctx):
 # ------------------------------------------------------------------------------------------------
 def _price(ref, off, tick):
     if isinstance(off, dict):
+        if 'level' in off:
+            return off['level']  # an absolute price level resolved by the caller
         return ref * (1 + off['rel'])
     return max(ref + off * tick, tick)
 
@@ -337,15 +346,30 @@ def make_strategy(symbol, script, ctx):
                 lad = spec.get(key)
                 if not lad:
                     continue
-                pts = [(total_qty * frac, _price(ref, off if isinstance(off, dict) else sgn * off, tick)) for frac, off in lad]
+                pts = []
+                for frac, off in lad:
+                    if isinstance(off, dict) and 'from_first_open' in off:
+                        # a fixed price level: k ticks away from the very first candle's open the strategy can see
+                        base = float(self.candles[0][1])
+                        off = {'level': max(base + sgn * off['from_first_open'] * tick, tick)}
+                    pts.append((total_qty * frac, _price(ref, off if isinstance(off, dict) else sgn * off, tick)))
                 out[key] = pts[0] if (spec.get('shape') == 'tuple' and len(pts) == 1) else (np.array(pts, dtype=float) if spec.get('shape') == 'ndarray' else pts)
             return out
 
-        def _declare(self, ex):
+        def _declare(self, ex, read_avg=False):
             if 'sl' in ex:
                 self.stop_loss = ex['sl']
             if 'tp' in ex:
                 self.take_profit = ex['tp']
+            if read_avg and self.position.is_open:
+                # reading the documented convenience properties must have no effect
+                try:
+                    if 'sl' in ex:
+                        _ = self.average_stop_loss
+                    if 'tp' in ex:
+                        _ = self.average_take_profit
+                except Exception:  # noqa
+                    pass
 
         def go_long(self):
             r = self._row()
@@ -388,7 +412,7 @@ def make_strategy(symbol, script, ctx):
             q = abs(self.position.qty)
             if k in ('sl', 'tp', 'both'):
                 ref = self.price if a.get('ref', 'price') == 'price' else self.position.entry_price
-                self._declare(self._exits(a, q, ref, ref, long))
+                self._declare(self._exits(a, q, ref, ref, long), read_avg=bool(a.get('read_avg')))
             elif k in ('nudge_sl', 'nudge_tp'):
                 # in-place edit of the declared array (what `self.stop_loss[0, 1] = x` does in a user strategy)
                 arr = self.stop_loss if k == 'nudge_sl' else self.take_profit
